@@ -113,6 +113,14 @@ impl Signature {
     pub fn from_compact_impl(compact_bytes: &[u8]) -> Result<Signature, BSVErrors> {
         // 27-30: P2PKH uncompressed
         // 31-34: P2PKH compressed
+        if compact_bytes.len() != 65 {
+            return Err(BSVErrors::SignatureError("A compact signature must be exactly 65 bytes long."));
+        }
+
+        if compact_bytes[0] < 27 || compact_bytes[0] > 34 {
+            return Err(BSVErrors::SignatureError("The recovery byte of a compact signature must be between 27 and 34."));
+        }
+
         let (recovery, is_compressed) = match (compact_bytes[0] - 27) as i8 - 4 {
             x if x < 0 => (x + 4, false),
             x => (x, true),
